@@ -1164,7 +1164,7 @@ impl Rasn {
     }
 
     const COPY_DERIVE: &str = "Copy";
-    const RUST_KEYWORDS: [&'static str; 53] = [
+    const RUST_KEYWORDS: [&'static str; 54] = [
         "as",
         "break",
         "const",
@@ -1218,6 +1218,7 @@ impl Rasn {
         "try",
         "union",
         "macro_rules",
+        "gen",
     ];
 
     pub(crate) fn to_rust_snake_case(&self, input: &str) -> Ident {
